@@ -71,7 +71,7 @@ fn permutations(n: usize) -> Vec<Vec<usize>> {
 fn run(ctx: &mut Ctx) {
     let macs: Vec<[u8; 6]> = PWB_BOARDS.iter().map(|b| b.1).collect();
     let macs = &macs;
-    let n = ctx.tier.pick(1600, 40_000);
+    let n = ctx.tier.pick(1600, 200_000);
     ctx.cases("reassembly", n, |ctx, i, rng| {
         // payload: mostly valid, sometimes invalid (then all orders must fail with BadPayload alike)
         let rs = *rng.pick(&[0u16, 1, 2, 3, 5, 8, 20, 64]);
